@@ -181,7 +181,7 @@ def rule_wallet_config(ctx: Ctx, rep: Report) -> None:
     signs or derives hardened steps, so a call without them answers for another
     set of scripts (or refuses) where the wallet's own derivation would not."""
     from rules.sigcommon import rule_config_forwarded
-    rule_config_forwarded(ctx, rep, "C14.wallet_config", "btclib.wallet.descriptor_wallet.DescriptorWallet", {"prv_keys": "prv_keys"}, 1)
+    rule_config_forwarded(ctx, rep, "C14.wallet_config", "btclib.wallet.descriptor_wallet.DescriptorWallet", {"prv_keys": "prv_keys"}, 4, fallback_pkg="btclib.descriptors")
 
 
 def rule_is_mine(ctx: Ctx, rep: Report) -> None:
